@@ -67,6 +67,15 @@ def mode_shard(arg):
                     if res["obs"]:
                         out.violation("%s on %s: %r" % (res["obs"][0]["kind"], interp, res["obs"][0]), case, interp)
             out.note_case(case, True, classes=["selftest_race"], n_eval=2 * len(ALL))
+        if arg.get("race_vals"):
+            # ... and a reset to auto-detection arriving while another extraction is reading the setting
+            case = {"reset_race": True}
+            for interp in ALL:
+                res = ws[interp].request({"op": "modes.reset_race"})
+                out.per_interp[interp] += 1
+                if res["obs"]:
+                    out.violation("%s on %s: %r" % (res["obs"][0]["kind"], interp, res["obs"][0]), case, interp)
+            out.note_case(case, True, classes=["reset_race"], n_eval=len(ALL))
 
         def chk(case):
             viols = []
@@ -112,6 +121,17 @@ def replay(ctx, data):
     if "stdlib_managers" in data["case"]:
         from vlib import cmgrleg
         return cmgrleg.replay(ctx, data, "ref.")
+    if data["case"].get("reset_race"):
+        from vlib.driver import Outcome
+        from vlib.workers import ALL, WorkerSet
+        out = Outcome()
+        with WorkerSet(ALL, hooks=False) as ws:
+            for interp in ALL:
+                res = ws[interp].request({"op": "modes.reset_race"})
+                out.note_case(data["case"], True)
+                if res["obs"]:
+                    out.violation("%s on %s: %r" % (res["obs"][0]["kind"], interp, res["obs"][0]), data["case"], interp)
+        return out
     if data["case"].get("selftest_race"):
         from vlib.driver import Outcome
         from vlib.workers import ALL, WorkerSet
